@@ -92,7 +92,8 @@ Index(str, pat, mode) ==
 \* "." over the strings of the specification: one whole character, that is, an
 \* ASCII byte, e-acute, or the invalid byte FF (which counts as one character)
 EAcute == Cat(Lit(xC3), Lit(xA9))
-DotU == Alt(Cls(0..127), Alt(EAcute, Lit(xFF)))
+UFFFD == Cat(Lit(239), Cat(Lit(191), Lit(189)))      \* a genuine U+FFFD (EF BF BD): valid UTF-8, one character
+DotU == Alt(Cls(0..127), Alt(EAcute, Alt(Lit(xFF), UFFFD)))
 
 RECURSIVE RenderB(_)
 RenderB(r) ==
